@@ -123,7 +123,19 @@ class Gen:
                         form = 0.0 * t.random()
                     else:
                         form = t.random()
+                    if t.chance(0.25 * cfg["p_lets"]):
+                        # a let made for one of this slice's bounds (then int_ref may pick it)
+                        val_ = t.choice([a, b])
+                        free_ = [x for x in NAMES + ["k", "m", "n"] if x not in used and x not in self.lets and x != nm]
+                        if free_ and not any(isinstance(v_, int) and v_ == val_ for v_ in self.lets.values()):
+                            nm_ = t.choice(free_)
+                            used.add(nm_)
+                            self.lets[nm_] = val_
+                            prog["lets"].append([nm_, val_])
                     start, stop, step = self.int_ref(a), self.int_ref(b), None
+                    if isinstance(start, int) and isinstance(stop, int) and t.chance(0.3 * cfg["p_lets"]):
+                        start = self.int_ref_sure(a, start)
+                        stop = self.int_ref_sure(b, stop) if isinstance(start, int) else stop
                     if form < 0.45:
                         step = self.int_ref(st)
                         if isinstance(step, int):
@@ -148,6 +160,11 @@ class Gen:
                 used.add(nm)
         self.used_names = used
         return prog
+
+    def int_ref_sure(self, i, default):
+        """An int let of value i if there is one (regardless of p_let_use)."""
+        c = [k for k, v in sorted(self.lets.items()) if isinstance(v, int) and v == i]
+        return self.t.choice(c) if c else default
 
     def int_ref(self, i, scope_params=()):
         """Literal i, or an int let of that value that is visible (not shadowed)."""
@@ -652,14 +669,27 @@ class Gen:
             prog["body"] = [{"k": "sub", "count": None, "body": []}]
         # overrides
         ov = {}
+        bound_lets = set()
+        for m_ in prog["maps"]:
+            for k_ in ("idx", "start", "stop", "step"):
+                if isinstance(m_.get(k_), str):
+                    bound_lets.add(m_[k_])
         for name, v in prog["lets"]:
-            if t.chance(cfg["p_override"]):
-                nv = t.choice(INT_VALUES) if isinstance(v, int) else t.choice(FLOAT_VALUES)
-                trial = dict(ov)
-                trial[name] = nv
-                try:
-                    resolve(prog, trial, executable=self.exec, anon=cfg["anon"])
-                    ov = trial
-                except Invalid:
-                    pass
+            structural = name in bound_lets and isinstance(v, int)
+            if t.chance(max(cfg["p_override"], 0.5 if (structural and cfg["p_override"] > 0) else 0.0)):
+                # (a let that places an alias: try the neighbouring values too, most random
+                # values make the program invalid)
+                tries = [t.choice(INT_VALUES) if isinstance(v, int) else t.choice(FLOAT_VALUES)]
+                if structural:
+                    tries += [v + 1, v - 1, v + 2]
+                for nv in tries:
+                    trial = dict(ov)
+                    trial[name] = nv
+                    try:
+                        resolve(prog, trial, executable=self.exec, anon=cfg["anon"])
+                        ov = trial
+                        if nv != v:
+                            break
+                    except Invalid:
+                        pass
         return prog, ov
